@@ -56,6 +56,17 @@ class Actor:
         self.model = []  # [(channel|None, item id)]
         self.items = {}  # id -> library item object (identity matters for remove-by-object)
         self.last_sha = None
+        self.ctor_list = None  # the list object handed to the constructor (if any)
+        self.ctor_ids = None
+
+
+def _gappy(arr, iid):
+    """Item ids select the presence pattern: every 4th item is wholly missing, every 4th has a gap."""
+    if iid % 4 == 0:
+        arr[...] = np.nan
+    elif iid % 4 == 1 and len(arr) > 1:
+        arr[len(arr) // 2:] = np.nan
+    return arr
 
 
 def make_item(cls, n, iid, length=None):
@@ -63,11 +74,11 @@ def make_item(cls, n, iid, length=None):
     lab = f"i{iid}"
     if cls == "emg":
         d = np.full(n, float(iid), dtype=np.float32)
-        return EMGTrack(lab, d)
+        return EMGTrack(lab, _gappy(d, iid))
     if cls == "data3d":
-        return MarkerTrack(lab, np.full((n, 3), float(iid), dtype=np.float32))
+        return MarkerTrack(lab, _gappy(np.full((n, 3), float(iid), dtype=np.float32), iid))
     if cls == "ft":
-        a = np.full((n, 3), float(iid), dtype=np.float32)
+        a = _gappy(np.full((n, 3), float(iid), dtype=np.float32), iid)
         return ForceTorqueTrack(lab, a.copy(), a.copy(), a.copy())
     if cls == "fpcal":
         return ForcePlatformInfo(lab, np.array([iid, 1], dtype=np.float32),
@@ -326,6 +337,14 @@ class World2:
         for i in ids:
             a.items[i] = make_item(self.cls, self.n, i)
             items.append(a.items[i])
+        share = self.actor(op["share"]) if op.get("share") is not None else None
+        if share is not None and share.ctor_list is not None and share.obj is not None:
+            # the caller passes the *same list object* it gave to an earlier constructor
+            items = share.ctor_list
+            ids = list(share.ctor_ids)
+            a.items = dict(share.items)
+            self.stats["create_shared_list"] += 1
+        a.ctor_list, a.ctor_ids = items, list(ids)
         if self.cls == "optical":
             a.obj = OpticalSetupBlock(channels=items)
             a.model = [(None, i) for i in ids]
@@ -496,8 +515,28 @@ class World2:
             chs = op.get("chs")
             if chs is not None:
                 chs = [c for c in chs][:len(ids)]
-                if len(set(chs)) != len(chs) or set(chs) & set(used) or len(chs) != len(ids):
+                if len(chs) != len(ids):
                     return self.skip()
+                if len(set(chs)) != len(chs) or set(chs) & set(used):
+                    # a channel that is taken (by an earlier platform or earlier in this very list)
+                    # must be refused with ValueError; whatever was added before the refusal may
+                    # stay, but the map must remain a valid one
+                    self.stats["fault_taken_channel"] += 1
+                    kind, val = self.call(a.obj.add_platforms, items, chs)
+                    self.note("bulk_add_taken", kind)
+                    if kind != "exc" or not isinstance(val, ValueError):
+                        self.v("C15", "I-chan", "taken-channel-not-refused-with-ValueError",
+                               {"channels": chs, "used": used[:8], "result": repr(val)[:100]})
+                        return
+                    enc, prob = self.observe_encoded(a)
+                    if prob:
+                        self.v("C15", "I-chan", "inconsistent-after-failed-assignment", {"why": prob[:200]})
+                        return
+                    if enc[:len(a.model)] != a.model:
+                        self.v("C15", "I-chan", "channel-detached-from-item", {"model": a.model[:8], "encoded": enc[:8]})
+                        return
+                    a.model = list(enc)
+                    return
             kind, val = self.call(a.obj.add_platforms, items, chs)
             self.note("bulk_add", kind)
             if kind == "exc":
@@ -634,8 +673,7 @@ class World2:
         it = list(a.obj)[k]
         arr = {"emg": lambda: it.data, "data3d": lambda: it.data, "ft": lambda: it.force,
                "events": lambda: it.values}[a.cls]()
-        kind, val = self.call(lambda: arr.__setitem__(slice(None), arr + 1000.0) if a.cls != "ft" else
-                              arr.__setitem__(slice(None), arr + 1000.0))
+        kind, val = self.call(lambda: arr.__setitem__(slice(None), np.nan_to_num(arr, nan=7.0) + 1000.0))
         self.note("edit", kind)
         if kind == "ok":
             self.stats["edits"] += 1  # check_all: the *other* actors' encoded bytes must not move
